@@ -86,6 +86,9 @@ type scenario struct {
 func allScenarios(c *lib.Ctx, yield func(scenario) bool) {
 	ok := true
 	y := func(name string, run func()) bool {
+		if !ok {
+			return false // a provider kept going after a stop: never yield again
+		}
 		ok = yield(scenario{name, run})
 		return ok
 	}
@@ -224,6 +227,19 @@ func init() {
 		},
 		Run: func(c *lib.Ctx) {
 			loadSites()
+			if v := os.Getenv("VERIF_C03_SEQ"); v != "" {
+				// debugging aid: run the listed scenario indices in order in this process
+				var all []scenario
+				allScenarios(c, func(sc scenario) bool { all = append(all, sc); return true })
+				for _, f := range strings.Split(v, ",") {
+					k, _ := strconv.Atoi(f)
+					vmap.Base, vmap.DevSite = vmap.Ascending, -1
+					fp := observe(all[k].run)
+					fmt.Printf("@@SEQ %d %s %s ev=%d msgs=%d\n", k, all[k].name, fp.Sum, fp.Events, fp.Msgs)
+				}
+				lib.CleanScratch()
+				os.Exit(0)
+			}
 			if v := os.Getenv("VERIF_C03_CHILD"); v != "" {
 				want, _ := strconv.Atoi(v)
 				i := 0
